@@ -168,13 +168,13 @@ def realDims (cfg : Cfg) (dims : Nat × Nat) : Nat × Nat :=
   | 2 => (128, 96)
   | _ => (((dims.1 + 3) / 4) * 4, ((dims.2 + 3) / 4) * 4)
 
-def genPic (cfg : Cfg) (pt : Nat) (dims : Nat × Nat) (tr : Nat) : G PicD := do
+def genPic (cfg : Cfg) (pt : Nat) (dims : Nat × Nat) (tr : Nat) (complete : Bool := false) : G PicD := do
   let quant ← (do let c ← below 6; if c = 0 then pick [1, 2, 30, 31] else range 1 31)
   let hdr ← genHdr cfg pt dims tr quant
   let (w, h) := hdr.dims
   let total := ((w + 15) / 16) * ((h + 15) / 16)
   let trunc ← below 12
-  let n ← (if trunc = 0 ∧ total > 1 then range 0 (total - 1) else pure total)
+  let n ← (if trunc = 0 ∧ total > 1 ∧ !complete then range 0 (total - 1) else pure total)
   let mbs ← (List.range n).mapM fun _ => genMb cfg (pt == 0)
   pure { hdr := hdr, mbs := mbs }
 
